@@ -91,8 +91,33 @@ Theorem C06_block2_exact_slice : forall T now gr s req rendering b2,
 Proof. exact block2_exact_slice_lemma. Qed.
 Print Assumptions C06_block2_exact_slice.
 
+(* NUM>0 is answered 4.08 or from the rendering made for the LATEST rendering (block-0 / Block2-less)
+   request of its key ([gl], advanced by [glatest_step] at every handler invocation, stored or not):
+   never from an older one.  [stored_is_latest] holds in every reachable state (next theorem).
+   False before commit d768e89 (finding C06:block2-stale-rendering, now fixed). *)
+Theorem C06_block2_latest_rendering : forall T now gr gl s req rendering b2,
+  m_block1 req = None -> m_block2 req = Some b2 -> b_num b2 <> 0 -> cache_inv gr (block2 s) -> stored_is_latest gr gl ->
+  let k := extract_block_key req in
+  let '(s', calls, res) := render_to_pipe T now s req rendering in
+  calls = [] /\
+  (res = incomplete_resp \/
+   exists Rn, gl k = Some Rn /\
+     res = if b2_start (b_szx b2) (b_num b2) >=? blen (p_payload Rn) then bad_request_resp txt_out_of_bounds
+           else slice_resp Rn (b_num b2) (b_szx b2) (m_mps req)).
+Proof. exact block2_latest_rendering_lemma. Qed.
+Print Assumptions C06_block2_latest_rendering.
+Theorem C06_stored_is_latest_reachable : forall T sv gh, reachable T sv gh ->
+  forall i, cache_inv (g_rend gh i) (block2 (nth i (resources sv) rstate_empty)) /\ stored_is_latest (g_rend gh i) (g_latest gh i).
+Proof. exact reachable_stored_is_latest. Qed.
+Print Assumptions C06_stored_is_latest_reachable.
+Theorem C06_latest_reference_step : forall g gl req1 rendering,
+  stored_is_latest g gl -> stored_is_latest (ghost2_step g req1 rendering) (glatest_step gl req1 rendering).
+Proof. exact stored_is_latest_step. Qed.
+Print Assumptions C06_latest_reference_step.
+
 (* a block-0 (or Block2-less) request invokes the handler exactly once; when the rendering needs
-   chunking it is stored and its first block returned, otherwise it is returned whole *)
+   chunking it is stored and its first block returned, otherwise it is returned whole and any
+   older stored rendering of the key is evicted *)
 Theorem C06_block2_first_block : forall T now s req rendering,
   m_block1 req = None -> match m_block2 req with Some b2 => b_num b2 = 0 | None => True end ->
   let k := extract_block_key req in
@@ -103,7 +128,7 @@ Theorem C06_block2_first_block : forall T now s req rendering,
   then kget k (block2 s') = Some rendering /\
        res = if 0 >=? blen (p_payload rendering) then bad_request_resp txt_out_of_bounds
              else slice_resp rendering 0 szx (m_mps req)
-  else res = set_block1 rendering None /\ block2 s' = block2 s.
+  else res = set_block1 rendering None /\ block2 s' = td_pop key_eqb k (block2 s).
 Proof. exact block2_first_block_lemma. Qed.
 Print Assumptions C06_block2_first_block.
 
@@ -118,8 +143,8 @@ Theorem C06_extract_block_slice : forall R number szx mps,
 Proof. exact extract_block_spec. Qed.
 Print Assumptions C06_extract_block_slice.
 
-(* ---- 4. TimeoutDict lifetime: over every history of lookups, assignments and time advances (any
-   keys, any idle times), with [last k] the time of the last successful access of [k]: an entry is
+(* ---- 4. TimeoutDict lifetime: over every history of lookups, assignments, pops and time advances (any
+   keys, any idle times), with [last k] the time of the last successful access of [k] since its last pop: an entry is
    present whenever less than T has passed since, and every present entry was accessed less than 2T ago *)
 Theorem C06_timeoutdict_lifetime : forall (K V : Type) (keqb : K -> K -> bool),
   (forall a b, keqb a b = true <-> a = b) -> forall T, 0 < T ->
@@ -138,25 +163,23 @@ Theorem C06_timeoutdict_advance_settled : forall (K V : Type) (keqb : K -> K -> 
 Proof. exact @td_ginv_advance. Qed.
 Print Assumptions C06_timeoutdict_advance_settled.
 
-(* ---- refuted: "the rendering made for the LATEST block-0 request".  A block-0 request whose
-   rendering fits into one block is answered whole and not stored, and leaves an older stored
-   rendering in place, so a later NUM>0 request is served from the older one (finding
-   C06:block2-stale-rendering, replayed on the implementation by corpus/C06/stale.json) *)
+(* ---- the scenario of the former finding C06:block2-stale-rendering (corpus/C06/stale.json): after a
+   block-0 request that is answered whole, a NUM>0 request gets 4.08 and nothing is kept *)
 Definition get_req (b2 : blockopt) (id : Z) : msg :=
   {| m_remote := 0; m_mps := 1124; m_mbse := 6; m_code := 1; m_opts := []; m_block1 := None; m_block2 := Some b2;
      m_payload := []; m_id := id |}.
 Definition rend (seed : Z) : resp := {| p_code := 69; p_block1 := None; p_block2 := None; p_payload := mk_body seed 100 |}.
-Example C06_block2_latest_rendering_refuted :
+Example C06_block2_after_whole_answer :
   let es := [Request 0 (get_req {| b_num := 0; b_more := false; b_szx := 0 |} 1) (rend 1);
-             Request 0 (get_req {| b_num := 0; b_more := false; b_szx := 6 |} 2) (rend 2);
-             Request 0 (get_req {| b_num := 2; b_more := false; b_szx := 0 |} 3) (rend 3)] in
+             Request 0 (get_req {| b_num := 2; b_more := false; b_szx := 0 |} 2) (rend 2);
+             Request 0 (get_req {| b_num := 0; b_more := false; b_szx := 6 |} 3) (rend 3);
+             Request 0 (get_req {| b_num := 2; b_more := false; b_szx := 0 |} 4) (rend 4)] in
   match snd (run MAX_TRANSMIT_WAIT_us (server_init 1) es) with
-  | [ORequest [_] r1 _ _; ORequest [_] r2 _ _; ORequest [] r3 _ _] =>
-      p_block2 r2 = None /\ p_payload r2 = mk_body 2 100 /\
-      p_payload r3 = bslice (mk_body 1 100) 32 48 /\ p_payload r3 <> bslice (mk_body 2 100) 32 48
+  | [ORequest [_] r1 0 1; ORequest [] r2 0 1; ORequest [_] r3 0 0; ORequest [] r4 0 0] =>
+      p_payload r2 = bslice (mk_body 1 100) 32 48 /\ p_block2 r3 = None /\ p_payload r3 = mk_body 3 100 /\ r4 = incomplete_resp
   | _ => False
   end.
-Proof. vm_compute. repeat split. discriminate. Qed.
+Proof. vm_compute. repeat split. Qed.
 
 (* ---- non-vacuity *)
 Definition put_req (b1 : blockopt) (pl : list Z) (id : Z) : msg :=
